@@ -30,6 +30,7 @@ type WorkerArgs struct {
 	Scratch  string
 	Skip     map[string]bool // case keys to skip (they crashed the process before)
 	Resume   string          // partial result to resume from
+	Only     string          // when set: run just the case with this key (confirmation of a hang in a fresh process)
 }
 
 const (
@@ -45,6 +46,17 @@ const (
 	// HeapCapBytes is the heap cap.
 	HeapCapBytes = 6 << 30
 )
+
+// cpuCap is CaseCPUCapSeconds; VERIF_SELFTEST_CPU_CAP lowers it to exercise the watchdog and the confirmation path.
+func cpuCap() float64 {
+	if v := os.Getenv("VERIF_SELFTEST_CPU_CAP"); v != "" {
+		var f float64
+		if _, err := fmt.Sscan(v, &f); err == nil && f > 0 {
+			return f
+		}
+	}
+	return CaseCPUCapSeconds
+}
 
 func cpuSeconds() float64 {
 	var ru syscall.Rusage
@@ -69,6 +81,15 @@ func touchWatchdog() {
 // does so only together with "no CPU was used", which load on the machine cannot cause.
 const BlockedWallSeconds = 180
 
+// StartWatchdog and TouchWatchdog give helper processes (the fresh processes a driver starts to compare results) the
+// watchdog of the workers: TouchWatchdog marks the beginning of the next execution.
+func StartWatchdog() { startWatchdog() }
+
+func TouchWatchdog() {
+	touchWatchdog()
+	caseSerial.Add(1)
+}
+
 func startWatchdog() {
 	caseStartCPU.Store(cpuSeconds())
 	go func() {
@@ -87,7 +108,7 @@ func startWatchdog() {
 				_ = pprof.Lookup("goroutine").WriteTo(os.Stderr, 2)
 				os.Exit(ExitHang)
 			}
-			if now-start > CaseCPUCapSeconds {
+			if now-start > cpuCap() {
 				fmt.Fprintf(os.Stderr, "\nVERIF-HANG: case used more than %d CPU seconds\n", CaseCPUCapSeconds)
 				_ = pprof.Lookup("goroutine").WriteTo(os.Stderr, 2)
 				os.Exit(ExitHang)
@@ -149,6 +170,10 @@ func RunWorker(a WorkerArgs) int {
 		}
 		c.Check = chk.ID
 		c.Family = f.Name
+		c.Seed, c.Tier = a.Seed, a.Tier
+		if a.Only != "" && c.Key() != a.Only {
+			return
+		}
 		if a.Skip[c.Key()] {
 			res.Counters["skipped_after_crash"]++
 			return
@@ -188,6 +213,9 @@ func RunWorker(a WorkerArgs) int {
 			sinceSave := 0
 			for i := start; i < n; i++ {
 				if i%a.NShards != a.Shard {
+					continue
+				}
+				if a.Only != "" && fmt.Sprintf("%s#%d", f.Name, i) != a.Only {
 					continue
 				}
 				if sinceSave == 0 {
@@ -244,7 +272,11 @@ func ReplayDir(dir string) int {
 	run.SetScratch(filepath.Join(os.TempDir(), fmt.Sprintf("verif-replay-%d", os.Getpid())))
 	defer os.RemoveAll(filepath.Join(os.TempDir(), fmt.Sprintf("verif-replay-%d", os.Getpid())))
 	res := newResult()
-	t := &T{Check: chk, Tier: "quick", Seed: 1, Replay: true, res: res, Log: func(f string, a ...interface{}) {
+	rtier, rseed := "quick", uint64(1)
+	if v.Case.Tier != "" {
+		rtier, rseed = v.Case.Tier, v.Case.Seed
+	}
+	t := &T{Check: chk, Tier: rtier, Seed: rseed, Replay: true, res: res, Log: func(f string, a ...interface{}) {
 		fmt.Printf(f+"\n", a...)
 	}}
 	fmt.Printf("replay %s family=%s index=%d recorded-signature=%q\n", chk.ID, v.Case.Family, v.Case.Index, v.Sig)
